@@ -124,7 +124,11 @@ def nativePure (name : String) (self : Value N) (args : List (Value N)) (st : St
   let need (n : Nat) (k : Option (NRes N)) : Option (NRes N) := if args.length < n then some (.error tooFew, st) else k
   let strArgNatives := ["Dictionary#set", "Dictionary#get", "Dictionary#remove", "Dictionary#contains", "String#contains",
     "String#split", "String#find", "String#replace", "System#string"]
-  if strArgNatives.contains name && (a0.toStr?.isNone || (name == "String#replace" && a1.toStr?.isNone)) then un "container to string" else
+  let s0 := toStrH st a0
+  let s1 := toStrH st a1
+  if strArgNatives.contains name && (s0.isNone || (name == "String#replace" && s1.isNone)) then un "cyclic container to string" else
+  let a0s := s0.getD ""
+  let a1s := s1.getD ""
   match name with
   -- ---------------------------------------------------------------- Array (array-script.cpp)
   | "Array#len" => match self with
@@ -183,16 +187,16 @@ def nativePure (name : String) (self : Value N) (args : List (Value N)) (st : St
     | .dict a => (st.dict? a).map fun kvs => (.ok (numOfNat kvs.length), st)
     | _ => un "self"
   | "Dictionary#set" => need 2 <| match self with
-    | .dict a => (st.dict? a).map fun kvs => (.ok .empty, st.put a (.dict (kvSet a0.toStr a1 kvs)))
+    | .dict a => (st.dict? a).map fun kvs => (.ok .empty, st.put a (.dict (kvSet a0s a1 kvs)))
     | _ => un "self"
   | "Dictionary#get" => need 1 <| match self with
-    | .dict a => (st.dict? a).map fun kvs => (.ok ((kvGet a0.toStr kvs).getD .empty), st)
+    | .dict a => (st.dict? a).map fun kvs => (.ok ((kvGet a0s kvs).getD .empty), st)
     | _ => un "self"
   | "Dictionary#remove" => need 1 <| match self with
-    | .dict a => (st.dict? a).map fun kvs => (.ok .empty, st.put a (.dict (kvRemove a0.toStr kvs)))
+    | .dict a => (st.dict? a).map fun kvs => (.ok .empty, st.put a (.dict (kvRemove a0s kvs)))
     | _ => un "self"
   | "Dictionary#contains" => need 1 <| match self with
-    | .dict a => (st.dict? a).map fun kvs => (.ok (.bool (kvHas a0.toStr kvs)), st)
+    | .dict a => (st.dict? a).map fun kvs => (.ok (.bool (kvHas a0s kvs)), st)
     | _ => un "self"
   | "Dictionary#clear" => match self with
     | .dict a => some (.ok .empty, st.put a (.dict []))
@@ -216,21 +220,21 @@ def nativePure (name : String) (self : Value N) (args : List (Value N)) (st : St
     | .str s => some (.ok (.str (mkStr ((s.toList.dropWhile isCSpace).reverse.dropWhile isCSpace).reverse)), st)
     | _ => un "self"
   | "String#contains" => need 1 <| match self with
-    | .str s => some (.ok (.bool ((findFrom a0.toStr.toList s.toList 0).isSome)), st)
+    | .str s => some (.ok (.bool ((findFrom a0s.toList s.toList 0).isSome)), st)
     | _ => un "self"
   | "String#split" => need 1 <| match self with
-    | .str s => some (newArr st ((splitAny a0.toStr.toList [] s.toList).map fun cs => .str (mkStr cs)))
+    | .str s => some (newArr st ((splitAny a0s.toList [] s.toList).map fun cs => .str (mkStr cs)))
     | _ => un "self"
   | "String#find" =>
     if args.isEmpty then some (.error (.script .args "Too few arguments"), st) else
     match self, args.tail with
     | .str s, [] =>
-      some (.ok (.num (Num.ofInt (match findFrom a0.toStr.toList s.toList 0 with | some i => Int.ofNat i | none => -1))), st)
+      some (.ok (.num (Num.ofInt (match findFrom a0s.toList s.toList 0 with | some i => Int.ofNat i | none => -1))), st)
     | _, _ => un "String#find with start"
   | "String#replace" => need 2 <| match self with
     | .str s =>
-      if a0.toStr == "" then un "replace of the empty string"
-      else some (.ok (.str (mkStr (replaceAll a0.toStr.toList a1.toStr.toList (s.length + 1) s.toList))), st)
+      if a0s == "" then un "replace of the empty string"
+      else some (.ok (.str (mkStr (replaceAll a0s.toList a1s.toList (s.length + 1) s.toList))), st)
     | _ => un "self"
   | "String#substr" =>
     if args.isEmpty then some (.error (.script .args "Too few arguments"), st) else
@@ -253,7 +257,7 @@ def nativePure (name : String) (self : Value N) (args : List (Value N)) (st : St
     | .str s => some (.ok (numOfNat s.length), st)
     | _ => some (.ok (numOfNat 0), st)
   | "System#typeof" => need 1 <| some (.ok (.typ (match a0 with | .empty => "Object" | v => v.ty.name)), st)   -- Empty reflects as Object
-  | "System#string" => need 1 <| some (.ok (.str a0.toStr), st)
+  | "System#string" => need 1 <| some (.ok (.str a0s), st)
   | "System#bool" => need 1 <| some (.ok (.bool (truthy st a0)), st)
   | "System#number" => need 1 <| match a0 with
     | .num _ | .bool _ | .empty => some (.ok (.num a0.toDouble), st)
